@@ -240,6 +240,35 @@ theorem algo_remove_on_views (v : View) (hwf : v.lay.WF) (hne : v.lay ≠ []) (h
       ys.take ((rowsVal v m).filter fun x => !p x).length = (rowsVal v m).filter fun x => !p x)
     (removeProg_list p (rowsVal v m))
 
+/-- `std::partition(v.begin(), v.end(), p)`: the rows afterwards are a permutation of the rows before, the returned position
+    is the number of rows satisfying `p`, every row before it satisfies `p` and no row from it on does -/
+theorem algo_partition_on_views (v : View) (hwf : v.lay.WF) (hne : v.lay ≠ []) (hinj : v.Injective) (m : Mem α)
+    (p : List α → Bool) :
+    ∃ m', (partitionProg p (rowsVal v m).length).runRows v m = some (m', ((((rowsVal v m).filter p).length : Nat) : Int)) ∧
+      ((rowsVal v m').Perm (rowsVal v m) ∧
+        (∀ r ∈ (rowsVal v m').take ((rowsVal v m).filter p).length, p r = true) ∧
+        (∀ r ∈ (rowsVal v m').drop ((rowsVal v m).filter p).length, p r = false)) ∧
+      ∀ a, ¬ v.InImage a → m' a = m a :=
+  rows_on_views v hwf hne hinj m _ (partitionProg_typed _ p _) _
+    (fun ys => ys.Perm (rowsVal v m) ∧ (∀ r ∈ ys.take ((rowsVal v m).filter p).length, p r = true) ∧
+      (∀ r ∈ ys.drop ((rowsVal v m).filter p).length, p r = false))
+    (partitionProg_list p (rowsVal v m))
+
+/-- `std::unique(v.begin(), v.end(), eq)`: the rows up to the returned position are the rows before with every row equal
+    (under `eq`) to the last kept one dropped -/
+theorem algo_unique_on_views (v : View) (hwf : v.lay.WF) (hne : v.lay ≠ []) (hinj : v.Injective) (m : Mem α)
+    (eq : List α → List α → Bool) :
+    ∃ m', (uniqueProg eq (rowsVal v m).length).runRows v m = some (m', (((uniq eq (rowsVal v m)).length : Nat) : Int)) ∧
+      ((rowsVal v m').length = (rowsVal v m).length ∧
+        (rowsVal v m').take (uniq eq (rowsVal v m)).length = uniq eq (rowsVal v m)) ∧
+      ∀ a, ¬ v.InImage a → m' a = m a :=
+  rows_on_views v hwf hne hinj m _ (uniqueProg_typed _ eq _) _
+    (fun ys => ys.length = (rowsVal v m).length ∧ ys.take (uniq eq (rowsVal v m)).length = uniq eq (rowsVal v m))
+    (uniqueProg_list eq (rowsVal v m))
+
+/-- sanity of the reference: `unique` on a list with runs of duplicates -/
+example : uniq (fun a b : Nat => a == b) [1, 1, 2, 2, 2, 1, 3, 3] = [1, 2, 1, 3] := by decide
+
 /-! ### … and on the flat `elements()` range (no typing condition: elements are single cells) -/
 
 theorem algo_reverse_on_elements (v : View) (hwf : v.lay.WF) (hne : v.lay ≠ []) (hinj : v.Injective) (m : Mem α) :
@@ -277,6 +306,28 @@ theorem algo_accumulate_on_elements (v : View) (hwf : v.lay.WF) (hne : v.lay ≠
       elemsVal v m' = elemsVal v m ∧ ∀ a, ¬ v.InImage a → m' a = m a :=
   elems_on_views v hwf hne hinj m _ _ (fun ys => ys = elemsVal v m) ⟨_, accumulateProg_list op (elemsVal v m) init, rfl⟩
 
+theorem algo_partition_on_elements (v : View) (hwf : v.lay.WF) (hne : v.lay ≠ []) (hinj : v.Injective) (m : Mem α)
+    (p : α → Bool) :
+    ∃ m', (partitionProg p (elemsVal v m).length).runElems v m = some (m', ((((elemsVal v m).filter p).length : Nat) : Int)) ∧
+      ((elemsVal v m').Perm (elemsVal v m) ∧
+        (∀ r ∈ (elemsVal v m').take ((elemsVal v m).filter p).length, p r = true) ∧
+        (∀ r ∈ (elemsVal v m').drop ((elemsVal v m).filter p).length, p r = false)) ∧
+      ∀ a, ¬ v.InImage a → m' a = m a :=
+  elems_on_views v hwf hne hinj m _ _
+    (fun ys => ys.Perm (elemsVal v m) ∧ (∀ r ∈ ys.take ((elemsVal v m).filter p).length, p r = true) ∧
+      (∀ r ∈ ys.drop ((elemsVal v m).filter p).length, p r = false))
+    (partitionProg_list p (elemsVal v m))
+
+theorem algo_unique_on_elements (v : View) (hwf : v.lay.WF) (hne : v.lay ≠ []) (hinj : v.Injective) (m : Mem α)
+    (eq : α → α → Bool) :
+    ∃ m', (uniqueProg eq (elemsVal v m).length).runElems v m = some (m', (((uniq eq (elemsVal v m)).length : Nat) : Int)) ∧
+      ((elemsVal v m').length = (elemsVal v m).length ∧
+        (elemsVal v m').take (uniq eq (elemsVal v m)).length = uniq eq (elemsVal v m)) ∧
+      ∀ a, ¬ v.InImage a → m' a = m a :=
+  elems_on_views v hwf hne hinj m _ _
+    (fun ys => ys.length = (elemsVal v m).length ∧ ys.take (uniq eq (elemsVal v m)).length = uniq eq (elemsVal v m))
+    (uniqueProg_list eq (elemsVal v m))
+
 /-! non-vacuity: the transposed 3×2 view of a 2×3 array at base 10 satisfies every hypothesis of `proxy_refines_seq` /
     `elements_refines_seq`, and insertion sort written against the interface sorts a list of independent rows -/
 example : ∃ v : View, v.lay.WF ∧ v.lay ≠ [] ∧ v.Injective ∧ v.exts = [⟨0, 3⟩, ⟨0, 2⟩] := by
@@ -299,6 +350,12 @@ example : (isortProg (listLex fun (a b : Int) => decide (a < b)) 10 0 3).runList
     = some ([[2, 4], [2, 5], [3, 1]], 0) := by decide +kernel
 
 example : (revProg Nat 5 0 5).runList [1, 2, 3, 4, 5] = some ([5, 4, 3, 2, 1], 0) := by decide +kernel
+
+example : (partitionProg (fun n : Nat => n % 2 == 0) 6).runList [1, 2, 3, 4, 5, 6] = some ([6, 2, 4, 3, 5, 1], 3) := by
+  decide +kernel
+
+example : (uniqueProg (fun a b : Nat => a == b) 8).runList [1, 1, 2, 2, 2, 1, 3, 3] = some ([1, 2, 1, 3, 2, 1, 3, 3], 4) := by
+  decide +kernel
 
 end C03
 end Multi
